@@ -187,7 +187,7 @@ def build_harness():
             open(tp, 'w').write(toml)
         lock = os.path.join(HARNESS_DIR, 'Cargo.lock')
         if not os.path.exists(lock):
-            for cand in (os.path.join(REPO, 'Cargo.lock'), os.path.join(VERIF, 'harness', 'Cargo.lock.seed')):
+            for cand in (os.path.join(VERIF, 'harness', 'Cargo.lock.seed'), os.path.join(REPO, 'Cargo.lock')):
                 if os.path.exists(cand):
                     shutil.copy(cand, lock)
                     break
